@@ -326,6 +326,342 @@ def r_groupby(E):
     return res
 
 
+# ---------------------------------------------------------------------------------------------- R-STALE
+_ST_POSITIVE = '''
+def parse(changes):
+    defaults = {}
+    for old, new in changes:
+        container = old.container
+        defaults[container.id] = container.default_values()
+    for old, new in changes:
+        container.check(old.attr_name, new, defaults[container.id])
+'''
+_ST_NEGATIVE = '''
+def parse(changes):
+    defaults = {}
+    for old, new in changes:
+        container = old.container
+        defaults[container.id] = container.default_values()
+    for old, new in changes:
+        container = old.container
+        container.check(old.attr_name, new, defaults[container.id])
+def find(xs, key):
+    for x in xs:
+        if x.key == key:
+            break
+    return [x.name for y in xs]
+def total(xs, ys):
+    acc = 0
+    for x in xs:
+        acc = acc + x
+    return [acc * y for y in ys]
+def last(xs, ys):
+    for x in xs:
+        pass
+    return x
+def names(xs, ys):
+    for x in xs:
+        print(x)
+    return [x for x in ys]
+'''
+
+LOOPS = (ast.For, ast.While, ast.ListComp, ast.SetComp, ast.DictComp, ast.GeneratorExp)
+def _own_nodes(fn):
+    """nodes of fn's own scope (nested defs / lambdas / classes excluded, comprehensions included)"""
+    out, todo = [], list(fn.body)
+    while todo:
+        n = todo.pop()
+        out.append(n)
+        for c in ast.iter_child_nodes(n):
+            if isinstance(c, (ast.FunctionDef, ast.AsyncFunctionDef, ast.Lambda, ast.ClassDef)):
+                continue
+            todo.append(c)
+    return out
+def _inside(n, anc):
+    x = n
+    while x is not None:
+        if x is anc: return True
+        x = getattr(x, "_parent", None)
+    return False
+def _has_own_break(loop):
+    todo = list(loop.body)
+    while todo:
+        n = todo.pop()
+        if isinstance(n, ast.Break): return True
+        if isinstance(n, (ast.For, ast.While, ast.FunctionDef, ast.Lambda, ast.ClassDef)): 
+            # a break in a nested loop's orelse belongs to us, rare: ignore
+            continue
+        todo += list(ast.iter_child_nodes(n))
+    return False
+def stale_loop_reads(tree):
+    out = []
+    for fn in ast.walk(tree):
+        if not isinstance(fn, ast.FunctionDef): continue
+        nodes = _own_nodes(fn)
+        params = {a.arg for a in fn.args.args + fn.args.kwonlyargs + fn.args.posonlyargs}
+        if fn.args.vararg: params.add(fn.args.vararg.arg)
+        if fn.args.kwarg: params.add(fn.args.kwarg.arg)
+        stores = {}
+        for n in nodes:
+            if isinstance(n, ast.Name) and isinstance(n.ctx, (ast.Store, ast.Del)):
+                # comprehension targets are their own scope
+                p = n
+                comp = False
+                while p is not None and p is not fn:
+                    if isinstance(p, ast.comprehension) and _inside(n, p.target): comp = True
+                    p = getattr(p, "_parent", None)
+                if not comp:
+                    stores.setdefault(n.id, []).append(n)
+            if isinstance(n, ast.ExceptHandler) and n.name: stores.setdefault(n.name, []).append(n)
+            if isinstance(n, ast.alias): stores.setdefault((n.asname or n.name).split(".")[0], []).append(n)
+            if isinstance(n, (ast.Global, ast.Nonlocal)):
+                for nm in n.names: params.add(nm)
+        for L in nodes:
+            if not isinstance(L, ast.For) or _has_own_break(L): continue
+            for name, sts in stores.items():
+                if name in params or not all(_inside(s, L) for s in sts): continue
+                for u in nodes:
+                    if isinstance(u, ast.Name) and u.id == name and isinstance(u.ctx, ast.Load) and not _inside(u, L) \
+                            and u.lineno > L.end_lineno:
+                        x, l2 = getattr(u, "_parent", None), None
+                        while x is not None and x is not fn:
+                            if isinstance(x, LOOPS) and not _inside(L, x):
+                                # comprehension-scope name of the same spelling?
+                                l2 = x
+                            x = getattr(x, "_parent", None)
+                        if l2 is None: continue
+                        # a comprehension between u and fn that binds the name shadows it
+                        x, shadow = getattr(u, "_parent", None), False
+                        while x is not None and x is not fn:
+                            if isinstance(x, (ast.ListComp, ast.SetComp, ast.DictComp, ast.GeneratorExp)) and any(
+                                    name in {t.id for t in ast.walk(g.target) if isinstance(t, ast.Name)} for g in x.generators):
+                                shadow = True
+                            x = getattr(x, "_parent", None)
+                        if not shadow:
+                            out.append((fn, L, u, l2))
+    return out
+
+
+@rule("R-STALE")
+def r_stale(E):
+    pm = E.pm
+    res = RuleResult("R-STALE", "a variable that is bound only inside a loop (its target or its body) is not read inside a "
+                                "*later, separate* loop: there it no longer is the value of the current element but "
+                                "whatever the last iteration of the first loop left behind (the object, attribute or value "
+                                "of the last change applied to every change)")
+    for mod, (rel, tree, src) in sorted(pm.modules.items()):
+        res.instances += len([n for n in ast.walk(tree) if isinstance(n, ast.For)])
+        seen = set()
+        for fn, L, u, l2 in stale_loop_reads(tree):
+            if (fn, u.id) in seen:
+                continue
+            seen.add((fn, u.id))
+            res.findings.append(Finding(
+                "R-STALE", f"{rel}:{fn.name} :: {u.id}",
+                f"{fn.name} reads `{u.id}` inside the loop `{norm(l2)[:50].splitlines()[0]}` although it is bound only by "
+                f"the earlier loop `for {norm(L.target)} in {norm(L.iter)[:40]}`: every iteration of the second loop sees the "
+                f"value left by the last iteration of the first one", rel, u.lineno, fn.name, {"clauses": _area(rel)}))
+    pos = stale_loop_reads(set_parents(ast.parse(_ST_POSITIVE)))
+    neg = stale_loop_reads(set_parents(ast.parse(_ST_NEGATIVE)))
+    if len({(f.name, u.id) for f, _, u, _ in pos}) != 1 or neg:
+        raise AnalysisError(f"R-STALE: embedded examples: {len(pos)} positive reads recognised, {len(neg)} false reports")
+    res.instances += 1
+    res.samples = [{"embedded_positive_example_recognised": True, "embedded_twins_silent": True}]
+    res.floor = 40
+    return res
+
+
+# ---------------------------------------------------------------------------------------------- R-REGEX
+_RX_POSITIVE = '''
+import re
+def has_suffix(label, source):
+    return re.search(rf"\\bfrom {source.name}\\b", label)
+def strip(label, name):
+    pattern = "^" + name + ": "
+    return re.sub(pattern, "", label)
+'''
+_RX_NEGATIVE = '''
+import re
+def has_suffix(label, source):
+    return re.search(rf"\\bfrom {re.escape(source.name)}\\b", label)
+def resolution(text):
+    return re.search(r"\\((\\d+)\\s*x\\s*(\\d+)\\)", text)
+def n_digits(text, n):
+    return re.match(rf"\\d{{{int(n)}}}", text)
+'''
+_RE_FUNCS = {"search", "match", "fullmatch", "sub", "subn", "findall", "finditer", "split", "compile"}
+
+
+def unescaped_patterns(tree):
+    """[(call, interpolated expr)]: regular expressions built from run-time text that is not passed through re.escape"""
+    out = []
+
+    def parts(e, fn, depth=0):
+        """the non-constant pieces a pattern expression is assembled from"""
+        if isinstance(e, ast.Constant):
+            return []
+        if isinstance(e, ast.JoinedStr):
+            r = []
+            for v in e.values:
+                if isinstance(v, ast.FormattedValue):
+                    r += parts(v.value, fn, depth)
+            return r
+        if isinstance(e, ast.BinOp) and isinstance(e.op, (ast.Add, ast.Mod)):
+            return parts(e.left, fn, depth) + parts(e.right, fn, depth)
+        if isinstance(e, ast.Call) and norm(e.func) in ("re.escape", "escape", "int", "len"):
+            return []
+        if isinstance(e, ast.Name) and fn is not None and depth < 3:
+            defs = [a.value for a in ast.walk(fn) if isinstance(a, ast.Assign) and any(
+                isinstance(t, ast.Name) and t.id == e.id for t in a.targets)]
+            if defs:
+                r = []
+                for d in defs:
+                    r += parts(d, fn, depth + 1)
+                return r
+        return [e]
+
+    for c in ast.walk(tree):
+        if not (isinstance(c, ast.Call) and isinstance(c.func, ast.Attribute) and c.func.attr in _RE_FUNCS
+                and norm(c.func.value) == "re" and c.args):
+            continue
+        fn = c
+        while fn is not None and not isinstance(fn, ast.FunctionDef):
+            fn = getattr(fn, "_parent", None)
+        for piece in parts(c.args[0], fn):
+            out.append((c, piece))
+    return out
+
+
+@rule("R-REGEX")
+def r_regex(E):
+    pm = E.pm
+    res = RuleResult("R-REGEX", "a regular expression is never assembled from run-time text (a source name, a label, an object "
+                                "name) that has not gone through re.escape: names are free text — 'LCA report (2023)', "
+                                "'C++ service' — and their metacharacters turn the intended literal match into another "
+                                "pattern (no match: a suffix is appended twice, an object is not found; or an exception)")
+    for mod, (rel, tree, src) in sorted(pm.modules.items()):
+        res.instances += len([c for c in ast.walk(tree) if isinstance(c, ast.Call) and isinstance(c.func, ast.Attribute)
+                              and c.func.attr in _RE_FUNCS and norm(c.func.value) == "re"])
+        for c, piece in unescaped_patterns(tree):
+            fn = c
+            while fn is not None and not isinstance(fn, ast.FunctionDef):
+                fn = getattr(fn, "_parent", None)
+            q = fn.name if fn is not None else "<module>"
+            res.findings.append(Finding(
+                "R-REGEX", f"{rel}:{q} :: {norm(piece)[:60]}",
+                f"{q} builds the pattern of `{norm(c)[:70]}` from `{norm(piece)[:40]}` without re.escape: for a text that "
+                f"contains ( ) [ ] + ? * . | or ends with a non-word character the pattern no longer matches that text "
+                f"literally", rel, c.lineno, q, {"clauses": _area(rel)}))
+    pos = unescaped_patterns(set_parents(ast.parse(_RX_POSITIVE)))
+    neg = unescaped_patterns(set_parents(ast.parse(_RX_NEGATIVE)))
+    if len(pos) != 2 or neg:
+        raise AnalysisError(f"R-REGEX: embedded examples: {len(pos)} of 2 positive recognised, {len(neg)} false reports")
+    res.instances += 2
+    res.samples = [{"embedded_positive_examples_recognised": 2, "embedded_twins_silent": True}]
+    res.floor = 3
+    return res
+
+
+# ---------------------------------------------------------------------------------------------- R-ITERMUT
+_IM_POSITIVE = '''
+def rollback(self):
+    for change in self.changes_list:
+        previous_value, new_value = change
+        new_value.replace(previous_value)
+        self.changes_list.remove(change)
+def prune(d):
+    for k in d:
+        if d[k] is None:
+            del d[k]
+'''
+_IM_NEGATIVE = '''
+def rollback(self):
+    for change in list(self.changes_list):
+        self.changes_list.remove(change)
+def drop_first(xs, x):
+    for y in xs:
+        if y == x:
+            xs.remove(y)
+            break
+def worklist(todo):
+    for item in todo:
+        for child in item.children:
+            todo.append(child)
+def rebinding(todo):
+    for item in todo:
+        todo = [t for t in todo if t is not item]
+'''
+_SHRINK = {"remove", "pop", "clear", "insert", "discard", "popitem", "__delitem__"}
+
+
+def shrinking_iterations(tree):
+    out = []
+    for L in ast.walk(tree):
+        if not isinstance(L, ast.For):
+            continue
+        it = L.iter
+        # iterating a copy / a derived sequence is fine: list(x), x.copy(), x[:], sorted(x), reversed(list(x)), x.items() on a copy…
+        base = it
+        if isinstance(base, ast.Call) and isinstance(base.func, ast.Attribute) and base.func.attr in ("items", "keys", "values") and not base.args:
+            base = base.func.value
+        elif isinstance(base, ast.Call) and isinstance(base.func, ast.Name) and base.func.id in ("enumerate", "reversed") and base.args:
+            base = base.args[0]
+        if not isinstance(base, (ast.Name, ast.Attribute)):
+            continue
+        bt = norm(base)
+        for n in [x for s in L.body for x in ast.walk(s)]:
+            hit = None
+            if isinstance(n, ast.Call) and isinstance(n.func, ast.Attribute) and n.func.attr in _SHRINK and norm(n.func.value) == bt:
+                hit = n
+            if isinstance(n, ast.Delete) and any(isinstance(t, ast.Subscript) and norm(t.value) == bt for t in n.targets):
+                hit = n
+            if hit is None:
+                continue
+            # followed by break / return on the same path: the iteration stops, nothing is skipped
+            st = hit
+            while not isinstance(st, ast.stmt):
+                st = st._parent
+            blk = None
+            p = st._parent
+            for f in ("body", "orelse"):
+                b = getattr(p, f, None)
+                if isinstance(b, list) and st in b:
+                    blk = b
+            after = blk[blk.index(st) + 1:] if blk else []
+            if any(isinstance(a, (ast.Break, ast.Return, ast.Raise)) for a in after):
+                continue
+            out.append((L, hit))
+    return out
+
+
+@rule("R-ITERMUT")
+def r_itermut(E):
+    pm = E.pm
+    res = RuleResult("R-ITERMUT", "no loop removes from (or inserts into) the very collection it iterates — without leaving the "
+                                  "loop right after: the iterator then skips the element that slid into the freed position, so "
+                                  "'for every change / value / object' silently becomes 'for every other one'")
+    for mod, (rel, tree, src) in sorted(pm.modules.items()):
+        res.instances += len([n for n in ast.walk(tree) if isinstance(n, ast.For)])
+        for L, hit in shrinking_iterations(tree):
+            fn = L
+            while fn is not None and not isinstance(fn, ast.FunctionDef):
+                fn = getattr(fn, "_parent", None)
+            q = fn.name if fn is not None else "<module>"
+            res.findings.append(Finding(
+                "R-ITERMUT", f"{rel}:{q} :: {norm(hit)[:60]}",
+                f"{q} iterates over `{norm(L.iter)[:40]}` and, inside the loop, does `{norm(hit)[:60]}` on the same "
+                f"collection: each removal shifts the remaining elements under the iterator, so every other element is "
+                f"skipped (a batch of changes is only half undone)", rel, hit.lineno, q, {"clauses": _area(rel)}))
+    pos = shrinking_iterations(set_parents(ast.parse(_IM_POSITIVE)))
+    neg = shrinking_iterations(set_parents(ast.parse(_IM_NEGATIVE)))
+    if len(pos) != 2 or neg:
+        raise AnalysisError(f"R-ITERMUT: embedded examples: {len(pos)} of 2 positive recognised, {len(neg)} false reports")
+    res.instances += 2
+    res.samples = [{"embedded_positive_examples_recognised": 2, "embedded_twins_silent": True}]
+    res.floor = 40
+    return res
+
+
 # ---------------------------------------------------------------------------------------------- R-ORDEFAULT
 @rule("R-ORDEFAULT")
 def r_ordefault(E):
